@@ -95,6 +95,22 @@ def insertSorted (s : String) : List String → List String
 
 def sortStrings (xs : List String) : List String := xs.foldr insertSorted []
 
+/-- the first node (in `newFilter`'s visiting order) at which `wfFE` fails: op name and number of arguments -/
+def wfWhy : Nat → FE → Option String
+  | 0, _ => none
+  | fuel + 1, e =>
+    let here := s!"{Gen.Op.names.getD e.op "?"}/args={e.args.length}/value={match e.value with | .nil => "nil" | .str _ => "string" | .int _ => "int" | .other => "other"}"
+    if !(!hasVar e.op || valIsStr e.value) then some here
+    else if isBinaryExpr e.op then
+      (match e.args[0]?, e.args[1]? with
+       | some a0, some a1 =>
+         if e.op = Gen.Op.fAnd ∨ e.op = Gen.Op.fOr then (wfWhy fuel a0).or (wfWhy fuel a1)
+         else if wfOperand a0 && wfOperand a1 then none else some here
+       | _, _ => some here)
+    else if e.op = Gen.Op.fNot then
+      (match e.args[0]? with | some a0 => wfWhy fuel a0 | none => some here)
+    else if wfLeaf e then none else some here
+
 def showLRes : LRes (List Accepted) → String
   | .panic p => "panic " ++ panicName p
   | .ok (.error e) => s!"err {e.line}"
@@ -102,7 +118,7 @@ def showLRes : LRes (List Accepted) → String
 
 /-- ops: `loader.load <strict 0|1> ((file …) (oracles …))` — model of LoadFile on an ir.File;
 `spec06.unsound <…same…>` — alternatives of the file that are not structurally sound;
-`spec06.wf (file …)` — is the IR of the shape irconv promises -/
+`spec06.wf (file …)` — is the IR of the shape irconv promises; `spec06.wfwhy (file …)` — `ok` or the offending nodes -/
 def handle : List String → Option String
   | "loader.load" :: st :: rest => do
     match ← parseSExp (" ".intercalate rest) with
@@ -120,5 +136,11 @@ def handle : List String → Option String
   | "spec06.wf" :: rest => do
     let f ← fileOf (← parseSExp (" ".intercalate rest))
     pure (if wfFile f then "ok 1" else "ok 0")
+  | "spec06.wfwhy" :: rest => do
+    let f ← fileOf (← parseSExp (" ".intercalate rest))
+    if wfFile f then pure "ok" else
+    let bad := f.groups.flatMap fun g => g.rules.filterMap fun r =>
+      if r.whereExpr.op = Gen.Op.fInvalid then none else wfWhy (feSize r.whereExpr + 1) r.whereExpr
+    pure ("bad " ++ " ".intercalate bad)
   | _ => none
 end Drv.LoaderD
